@@ -100,7 +100,7 @@ type c27Step struct {
 
 type c27Junk struct {
 	AtMs  int    `json:"at_ms"`
-	Kind  string `json:"kind"` // vn | short | badtoken | newinitial | tinyinitial | hsjunk | zeros | replay-first | replay-last
+	Kind  string `json:"kind"` // vn | short | badtoken | newinitial | tinyinitial | hsjunk | zeros | replay-first | replay-last | coalesced-initials
 	Size  int    `json:"size"`
 	Spoof bool   `json:"spoof,omitempty"`
 }
@@ -466,13 +466,14 @@ type c27Mitm struct {
 	o     *c27Oracle
 	cfg   *c27Config
 
-	emitMu   sync.Mutex // serialises tagged writes; never taken while a network or oracle lock is held
-	mu       sync.Mutex
-	k        int
-	captured [][]byte // the client's original datagrams
-	stop     chan struct{}
-	wg       verifrt.WG
-	acts     map[string]int64
+	emitMu    sync.Mutex // serialises tagged writes; never taken while a network or oracle lock is held
+	mu        sync.Mutex
+	k         int
+	captured  [][]byte // the client's original datagrams
+	coalesced int      // coalesced-initials datagrams built so far (packet numbers)
+	stop      chan struct{}
+	wg        verifrt.WG
+	acts      map[string]int64
 }
 
 func (m *c27Mitm) Close() error              { return m.inner.Close() }
@@ -650,6 +651,38 @@ func (m *c27Mitm) junk(rng *rand.Rand, j c27Junk) []byte {
 		return put(hdr(2, 1, rnd(8), rnd(8), nil))
 	case "zeros":
 		clear(b)
+		return b
+	case "coalesced-initials":
+		// One datagram with several genuine, ack-eliciting Initial packets (a PING each, packet
+		// numbers of their own) for the client's connection: Initial keys follow from the
+		// connection id the client chose, so anybody on the path can write them. The datagram
+		// earns three times its size once, however many packets it carries.
+		if len(first) > 7+int(first[5]) {
+			dcid := first[6 : 6+int(first[5])]
+			q := 6 + int(first[5])
+			if q+1+int(first[q]) > len(first) {
+				return b
+			}
+			scid := first[q+1 : q+1+int(first[q])]
+			keys := initialKeys(dcid, clientSide)
+			var w packetWriter
+			w.reset(max(size, 1200))
+			m.mu.Lock()
+			base := packetNumber(500 + 10*m.coalesced)
+			m.coalesced++
+			m.mu.Unlock()
+			for i, k := 0, 2+rng.IntN(4); i < k; i++ {
+				lp := longPacket{ptype: packetTypeInitial, version: quicVersion1, num: base + packetNumber(i), dstConnID: dcid, srcConnID: scid}
+				w.startProtectedLongHeaderPacket(-1, lp)
+				w.appendPingFrame()
+				w.finishProtectedLongHeaderPacket(-1, keys.w, lp)
+			}
+			d := append([]byte(nil), w.datagram()...)
+			for len(d) < max(size, 1200) {
+				d = append(d, 0)
+			}
+			return d
+		}
 		return b
 	}
 	return b
@@ -1050,7 +1083,7 @@ func c27Gen(rng *rand.Rand, thorough bool) *c27Config {
 	}
 	for i := 0; i < nj; i++ {
 		j := c27Junk{AtMs: rng.IntN(cfg.RunS * 1000), Spoof: rng.IntN(3) == 0,
-			Kind: []string{"vn", "short", "badtoken", "newinitial", "hsjunk", "zeros", "replay-first", "replay-first", "replay-last", "tinyinitial"}[rng.IntN(10)]}
+			Kind: []string{"vn", "short", "badtoken", "newinitial", "hsjunk", "zeros", "replay-first", "replay-first", "replay-last", "tinyinitial", "coalesced-initials", "coalesced-initials"}[rng.IntN(12)]}
 		if cfg.Retry && rng.IntN(3) == 0 {
 			j.Kind = "tinyinitial"
 		}
